@@ -26,7 +26,7 @@ def history(rng, n):
     pool = list(range(8))
     keys = [gen.key(i) for i in rng.sample(pool, rng.randint(1, 3))]
     thr = rng.randint(1, len(keys))
-    init = gen.envelope(gen.root_md(keys, thr, [gen.key(9)], 1, version=rng.choice([1, 1, 3, 7])))
+    init = gen.envelope(gen.root_md(keys, thr, [gen.key(9)], 1, version=rng.choice([1, 1, 3, 7, 2**53 - 1, 2**70])))
     cur = init
     accepted = [init]
     past_keysets = []
@@ -37,7 +37,7 @@ def history(rng, n):
         cthr = cs["delegations"]["root"]["threshold"]
         v = cs["version"]
         kind = rng.choice(["honest", "honest", "honest", "rotate", "rotate", "replay", "rollback", "skip", "revoked", "insufficient",
-                           "self-appointed", "raw-sigs", "same-version", "junk", "honest-extra-junk", "superset-self-appointed", "superset-self-appointed"])
+                           "self-appointed", "raw-sigs", "same-version", "junk", "honest-extra-junk", "superset-self-appointed", "superset-self-appointed", "odd-version"])
         if kind in ("honest", "honest-extra-junk"):
             o = signed_root(rng, ckeys, rng.randint(1, len(ckeys)), v + 1, rng.sample(ckeys, cthr))
             if kind == "honest-extra-junk":
@@ -69,6 +69,9 @@ def history(rng, n):
             o = signed_root(rng, nk, max(1, min(cthr, len(signers))), v + 1, signers)
         elif kind == "raw-sigs":
             o = signed_root(rng, ckeys, cthr, v + 1, ckeys, gpg=False)
+        elif kind == "odd-version":
+            # versions that are not integers, or floats at the edge of exactness (2**53 + 1 == 2**53 as a float): properly signed, never acceptable
+            o = signed_root(rng, ckeys, cthr, rng.choice([float(v + 1), float(2**53), v + 1.5, str(v + 1), True, None, float("inf")]), ckeys)
         elif kind == "same-version":
             o = signed_root(rng, ckeys, cthr, v, ckeys)
         else:
